@@ -9,24 +9,40 @@
 (* L0: eff <= G always; eff = L while the server cannot be used; a usable answer q in 1..G takes effect.             *)
 EXTENDS Naturals, Integers, Sequences, FiniteSets, TLC
 
-CONSTANTS L, G, Variant, MaxSteps
+CONSTANTS L, G, Variant, MaxSteps, Accounting     \* Accounting: "split" (as implemented: the local and the remote limiter count separately) | "shared"
 Huge == 1000000
 NoQuota == -1          \* no quota applied yet (quotas are never negative once applied)
 Replies == {-300, -1, 0, 1, L, L + 1, G, G + 1, 25 * G, 2147483647, -2147483647}        \* (int32 extremes: conversions to uint32 / float)
-VARIABLES ready, quota, hist
-vars == <<ready, quota, hist>>
+VARIABLES ready, quota, hist, heldL, heldR      \* requests in flight that were admitted under the local / under the remote limiter
+vars == <<ready, quota, hist, heldL, heldR>>
 Clamp(q) == IF q < 0 THEN 0 ELSE IF q > G THEN G ELSE q
 Apply(q, first) == IF Variant = "fixed" THEN Clamp(q)
                    ELSE IF first THEN (IF q < 0 THEN Huge ELSE q)                 \* first answer: not clamped at all
                    ELSE IF q > G THEN G ELSE IF q < 0 THEN Huge ELSE q            \* later answers: upper clamp only, uint32(negative)
 Eff == IF ready /\ quota # NoQuota THEN quota ELSE L
 
-Init == ready = FALSE /\ quota = NoQuota /\ hist = <<>>
-Reply(q) == /\ ready /\ quota' = Apply(q, quota = NoQuota) /\ UNCHANGED ready /\ hist' = Append(hist, [k |-> "reply", q |-> q])
-ReplyErr == /\ ready /\ UNCHANGED <<ready, quota>> /\ hist' = Append(hist, [k |-> "replyerr", q |-> 0])
-Flip == /\ ready' = ~ready /\ UNCHANGED quota /\ hist' = Append(hist, [k |-> "ready", q |-> IF ready THEN 0 ELSE 1])
-Next == Len(hist) < MaxSteps /\ ((\E q \in Replies : Reply(q)) \/ ReplyErr \/ Flip)
+Init == ready = FALSE /\ quota = NoQuota /\ hist = <<>> /\ heldL = 0 /\ heldR = 0
+Reply(q) == /\ ready /\ quota' = Apply(q, quota = NoQuota) /\ UNCHANGED <<ready, heldL, heldR>> /\ hist' = Append(hist, [k |-> "reply", q |-> q])
+\* an answer that names the schema but carries no limit at all, or a limit of the other type (a token bucket for a max-in-flight schema ..):
+\* "fixed": not usable, the local limit applies; "pinned": the limiter is rebuilt from what the answer carries - no limit at all, or a limiter
+\* of the wrong type sized by the answer
+ReplyBad(kind) == /\ ready /\ quota' = (IF Variant = "fixed" THEN L ELSE Huge) /\ UNCHANGED <<ready, heldL, heldR>> /\ hist' = Append(hist, [k |-> kind, q |-> 25 * G])
+\* requests that STAY in flight across the following steps: admitted as far as the limiter in force lets them.  With split accounting the
+\* limiter in force only sees the requests it admitted itself
+Room == LET lim == Eff used == IF Accounting = "shared" THEN heldL + heldR ELSE IF ready /\ quota # NoQuota THEN heldR ELSE heldL
+        IN IF lim > used THEN lim - used ELSE 0
+Hold == /\ heldL + heldR < 2 * G /\ Room > 0
+        /\ IF ready /\ quota # NoQuota THEN heldR' = heldR + Room /\ UNCHANGED heldL ELSE heldL' = heldL + Room /\ UNCHANGED heldR
+        /\ UNCHANGED <<ready, quota>> /\ hist' = Append(hist, [k |-> "hold", q |-> Room])
+Unhold == /\ heldL + heldR > 0 /\ heldL' = 0 /\ heldR' = 0 /\ UNCHANGED <<ready, quota>> /\ hist' = Append(hist, [k |-> "unhold", q |-> 0])
+ReplyErr == /\ ready /\ UNCHANGED <<ready, quota, heldL, heldR>> /\ hist' = Append(hist, [k |-> "replyerr", q |-> 0])
+Flip == /\ ready' = ~ready /\ UNCHANGED <<quota, heldL, heldR>> /\ hist' = Append(hist, [k |-> "ready", q |-> IF ready THEN 0 ELSE 1])
+Next == Len(hist) < MaxSteps /\ ((\E q \in Replies : Reply(q)) \/ ReplyErr \/ Flip \/ ReplyBad("empty") \/ ReplyBad("wrongtype") \/ Hold \/ Unhold)
 Spec == Init /\ [][Next]_vars
 NeverAboveGlobal == Eff <= G
 LocalWhenUnusable == ~ready => Eff = L
+\* never more than the global limit IN FLIGHT, whichever limiter admitted them.  Holds for "shared"; REFUTED for "split" (the implementation):
+\* requests admitted under the local limit stay in flight when the server becomes usable and the remote limiter admits a full quota on top -
+\* recorded as a known finding (KNOWN_FINDINGS.json, deviation SplitAccounting)
+InFlightWithinGlobal == heldL + heldR <= G
 =============================================================================
